@@ -102,10 +102,14 @@ CHECKS = {
              "c04_calls_in_a_template_body_are_expanded_after_substitution: a template whose body holds calls to other templates "
              "with plain names and arguments gives the body with its parameters substituted and every call replaced by its "
              "result (one trailing line break of each such argument dropped: the known finding), also compared with Wtp.expand "
-             "on 400 generated cases per quick run; c04_two_levels_of_calls combines the two (calls in the arguments of a call whose "
+             "on 400 generated cases per quick run; c04_parameters_in_the_arguments_of_body_calls extends it to calls in the body "
+             "whose arguments hold parameter references: the parameters are written into the argument texts first and the calls "
+             "are made with these texts - the code's order, which is why a value containing '=' re-splits the argument (the "
+             "known finding; the rule proved is the rule the code follows, stated without fuel or path); "
+             "c04_two_levels_of_calls combines the two (calls in the arguments of a call whose "
              "template has calls in its body), which is what the nested correspondence runs on. "
-             "PARTIAL: beyond these fragments (parameters inside the arguments of calls in bodies, deeper nesting, a template "
-             "inside its own arguments, links) equality with the independent MediaWiki reference semantics is decided per run by harness/gen_wt.py:Ref, "
+             "PARTIAL: beyond these fragments (nesting deeper than two levels, a template inside its own arguments, parser "
+             "functions with calls in their arguments, links) equality with the independent MediaWiki reference semantics is decided per run by harness/gen_wt.py:Ref, "
              "not by a refinement theorem.",
         note=TRUST + "regex-based _encode/preprocess_text/_template_to_body are glue under the diff; ASCII whitespace; "
              "parser function name table regenerated from the live module.",
